@@ -28,7 +28,8 @@ RuleOps(t) == Rules[ChosenDo(t)][DoVer(ChosenDo(t))][t]
 \* a file redo may (re)produce now: not the user's, and a rule exists
 Buildable(t) == t \in Plain /\ ~UserOwned(t) /\ HasRule(t)
 
-OutIdx(ops) == {i \in 1..Len(ops) : ops[i].op = "out"}
+\* output steps that leave something behind ("filedel": $3 created and deleted again; "filedir": $3 made a directory by a failing rule)
+OutIdx(ops) == {i \in 1..Len(ops) : ops[i].op = "out" /\ ops[i].ch \notin {"filedel", "filedir"}}
 
 (***************************************************************************)
 (* C01: from-scratch content                                               *)
